@@ -90,16 +90,24 @@ fn base(rng: &mut Rng, thorough: bool) -> Knobs {
 /// One run in `one_in`: a hub with many peers in both directions (tables and the
 /// trace's map well past their initial capacities, > 16 distinct records in one
 /// table), followed by a walk that removes and re-records adoptions and lets peers die.
-fn dense_hub(rng: &mut Rng, kn: &mut Knobs, thorough: bool, one_in: u32) {
+fn dense_hub(rng: &mut Rng, kn: &mut Knobs, thorough: bool, one_in: u32, giant_in: u32) {
     if !rng.chance(1, one_in) {
         return;
     }
     kn.shape = 10;
     kn.shape_objs = 8 + rng.below(if thorough { 8 } else { 5 });
+    if rng.chance(1, giant_in) {
+        // a giant hub: more than 32 distinct records in one table whose owner lives on
+        kn.shape_objs = 18 + rng.below(if thorough { 44 } else { 24 });
+    }
     kn.max_objs = kn.shape_objs + rng.below(3);
     kn.adopt_p = 8;
     kn.max_mult = 1 + rng.below(2);
     kn.walk_len = 16 + rng.below(40);
+    if kn.shape_objs >= 18 {
+        kn.walk_len = 20 + rng.below(30);
+        kn.extra_clone_p = 0;
+    }
     set_w(kn, K::New, 2);
     set_w(kn, K::Clone, 8);
     set_w(kn, K::Drop, 14);
@@ -165,7 +173,7 @@ pub fn knobs(profile: &str, thorough: bool, rng: &mut Rng) -> Knobs {
             // keep outside handles alive across collections and use them afterwards
             kn.extra_clone_p = 3 + rng.below(4) as u32;
             set_w(&mut kn, K::Clone, 12);
-            dense_hub(rng, &mut kn, thorough, 40);
+            dense_hub(rng, &mut kn, thorough, 24, 4);
         }
         "C02" => {
             recording_discipline(rng, &mut kn);
@@ -180,7 +188,7 @@ pub fn knobs(profile: &str, thorough: bool, rng: &mut Rng) -> Knobs {
             if rng.chance(1, 4) {
                 kn.dtor_downgrade_p = 1 + rng.below(3) as u32;
             }
-            dense_hub(rng, &mut kn, thorough, 40);
+            dense_hub(rng, &mut kn, thorough, 40, 8);
             // handles are also given up through try_unwrap / make_mut / the raw API
             if rng.chance(1, 4) {
                 kn.consuming_on_adopted = true;
@@ -261,7 +269,7 @@ pub fn knobs(profile: &str, thorough: bool, rng: &mut Rng) -> Knobs {
             set_w(&mut kn, K::Take, 8);
             with_weak(rng, &mut kn, false);
             kn.max_mult = 1 + rng.below(4);
-            dense_hub(rng, &mut kn, thorough, 10);
+            dense_hub(rng, &mut kn, thorough, 10, 8);
             // records must also disappear when an object dies or is given up while some
             // of its peers' records are stale (a forgotten unadopt) ...
             if rng.chance(1, 5) {
@@ -413,7 +421,7 @@ pub fn nontrivial(profile: &str, d: &[u64; NSTATS]) -> bool {
         "C08" => g(St::p_c08_entries) > 0,
         "C09" => g(St::p_path_cycle) > 0,
         "C10" => g(St::f_script_action) > 0,
-        "C11" => g(St::f_dtor_panic) > 0,
+        "C11" => g(St::f_dtor_panic) + g(St::f_dtor_panic_early) + g(St::f_clone_panic) > 0,
         "C12" => g(St::f_consuming_on_adopted) > 0,
         "C13" => g(St::f_elided_unadopt) > 0,
         "C14" => g(St::p_c14_checked_calls) > 0 && g(St::op_store_adopt) > 0,
